@@ -689,7 +689,16 @@ tx_outs:\n{tx_outs}
         # fewer signatures) may have left its items in front of them
         keep = 3 if tx_in.witness.has_annex() else 2
         tx_in.witness.items = tx_in.witness.items[-keep:]
+        # <k> OP_NUMEQUAL wants exactly k signatures: further ones are left out
+        if len(tx_in.tap_script.points) > 1:
+            needed = tx_in.tap_script.commands[-2] - 0x50
+        else:
+            needed = 1
+        placed = 0
         for point in tx_in.tap_script.points:
+            if placed >= needed:
+                tx_in.witness.items.insert(0, b"")
+                continue
             for sig in sigs:
                 if len(sig) == 0:
                     continue
@@ -704,6 +713,7 @@ tx_outs:\n{tx_outs}
                 msg = self.sig_hash(input_index, hash_type=hash_type)
                 if point.verify_schnorr(msg, schnorr):
                     tx_in.witness.items.insert(0, sig)
+                    placed += 1
                     break
             else:
                 tx_in.witness.items.insert(0, b"")
